@@ -1,7 +1,7 @@
 // C16: resource use and crash behaviour of the real code on hostile input.
 //   alloc <hex>            in-process: one RespPacket::decode call on the buffer under the counting allocator
 //                          -> "<ok n|need|invalid> total=<bytes requested> max=<largest request> reqs=<count> elem=<size_of RespIndex>"
-//   hostile <hex>          CHILD process (2 MiB stack thread, RLIMIT_AS 2 GiB, 6 s timeout): one decode call
+//   hostile <hex>          CHILD process (2 MiB stack thread, RLIMIT_AS 2 GiB, 15 s timeout): one decode call
 //                          -> "exit=<ok|timeout|signal:N|code:N> ms=<wall> <ok n|need|invalid|panic ..>"
 //   cmd <hex arg> ...      CHILD process: the command (array of bulk strings) sent to a real proxy SharedForwardHandler
 //                          -> "exit=.. ms=.. reply <resp>" | ".. noreply"
@@ -227,7 +227,10 @@ pub fn child_main(line: &str) {
 fn in_child(line: &str, timeout_ms: u64) -> String {
     let exe = std::env::current_exe().expect("exe");
     let mut cmd = std::process::Command::new(exe);
-    cmd.arg("--child").arg(line).stdout(std::process::Stdio::piped()).stderr(std::process::Stdio::null());
+    cmd.arg("--child")
+        .stdin(std::process::Stdio::piped())
+        .stdout(std::process::Stdio::piped())
+        .stderr(std::process::Stdio::null());
     unsafe {
         cmd.pre_exec(|| {
             let lim = libc::rlimit { rlim_cur: 2 << 30, rlim_max: 2 << 30 };
@@ -242,6 +245,11 @@ fn in_child(line: &str, timeout_ms: u64) -> String {
         Ok(c) => c,
         Err(e) => return format!("exit=spawn-failed {}", e),
     };
+    if let Some(mut si) = child.stdin.take() {
+        use std::io::Write;
+        let _ = si.write_all(line.as_bytes());
+        let _ = si.write_all(b"\n");
+    }
     let status;
     loop {
         match child.try_wait() {
@@ -283,7 +291,7 @@ pub fn run_case(_rt: &tokio::runtime::Runtime, line: &str) -> String {
     let kind = line.split_whitespace().next().unwrap_or("");
     match kind {
         "alloc" => run_direct(line),
-        "hostile" | "cmd" | "rangemap" => in_child(line, 6000),
+        "hostile" | "cmd" | "rangemap" => in_child(line, 15000),
         _ => format!("unknown-kind {}", kind),
     }
 }
